@@ -191,6 +191,46 @@ def standardAttempts (a : Args) (s : SSHArgs) (khLoads keyLoads : Bool) (verdict
   | .error _ => []
   | .ok cfg => if hostKeyAccepted cfg.policy verdict then attemptsUntil accepts cfg.auth else []
 
+/-! ### connections in sequence
+
+`openBase` reads the known-hosts file anew for every connection (`knownhosts.New`), so what the
+file holds AT THE TIME of a connection is an input of that connection, and nothing a previous
+connection did (same process, same path, same or another driver) is. -/
+
+/-- what the configured known-hosts path holds when the connection is opened, as far as this
+server's key is concerned (observed, see `KhVerdict`) -/
+inductive KhContent
+  | missing                  -- no such file
+  | malformed                -- `knownhosts.New` rejects it
+  | holds (v : KhVerdict)
+  deriving DecidableEq, Repr
+
+def KhContent.loads : KhContent → Bool
+  | .holds _ => true
+  | _ => false
+
+def KhContent.verdict : KhContent → KhVerdict
+  | .holds v => v
+  | _ => .unknown
+
+/-- one connection attempt with everything it depends on -/
+structure Conn where
+  a : Args
+  s : SSHArgs
+  kh : KhContent
+  keyLoads : Bool
+  accepts : AuthMethod → Bool
+
+def standardConn (c : Conn) : Outcome :=
+  standardOpen c.a c.s c.kh.loads c.keyLoads c.kh.verdict c.accepts
+
+def standardConnAttempts (c : Conn) : List AuthMethod :=
+  standardAttempts c.a c.s c.kh.loads c.keyLoads c.kh.verdict c.accepts
+
+/-- a process opening connections one after the other: the transport keeps no state between
+them, so the run is the connection-wise map (the state threaded through is `Unit`) -/
+def standardHistory (h : List Conn) : List Outcome := h.map standardConn
+
 /-! ## specification side: what an ssh command line means (our reading of OpenSSH `ssh.c`) -/
 
 /-- parse state / effective settings -/
